@@ -279,8 +279,23 @@ def run_history(fam, kind, rng, rec, h):
                     op = 'update'
                     pairs = [(K(rng.randrange(nk)), V(rng.randrange(nv)))
                              for _ in range(rng.randint(0, 5))]
-                    src = rng.choice(['pairs', 'dict', 'bucket'])
-                    if src == 'dict' and W.tracked_keys is False:
+                    src = rng.choice(['pairs', 'dict', 'bucket', 'failing'])
+                    if src == 'failing':
+                        # the source breaks off half-way (user code failing
+                        # inside update): the pairs before are in
+                        kfail = rng.randint(0, len(pairs))
+                        fi = gen.FailingItems(pairs, kfail)
+                        for a_, _b in pairs[:kfail]:
+                            present.add(W.KP.index(a_) if not W.tracked_keys
+                                        else a_.n - W.KP[0].n)
+                        pairs = []
+                        a_ = b_ = _b = None
+                        try:
+                            c.update(fi)
+                        finally:
+                            fi.pairs = None
+                            del fi
+                    elif src == 'dict' and W.tracked_keys is False:
                         c.update(dict(pairs))
                     elif src == 'bucket':
                         b = fam.cls('Bucket', impl)()
@@ -331,8 +346,20 @@ def run_history(fam, kind, rng, rec, h):
                 elif r < 0.32:
                     op = 'update'
                     ks = [rng.randrange(nk) for _ in range(rng.randint(0, 5))]
-                    c.update([K(i) for i in ks])
-                    present.update(ks)
+                    if rng.random() < .25:
+                        kfail = rng.randint(0, len(ks))
+                        present.update(ks[:kfail])
+                        it_ = gen.failing_iter([K(i) for i in ks], kfail)
+                        try:
+                            if rng.random() < .5:
+                                c.update(it_)
+                            else:
+                                c |= it_
+                        finally:
+                            del it_
+                    else:
+                        c.update([K(i) for i in ks])
+                        present.update(ks)
                 elif r < 0.42:
                     op = 'remove'
                     c.remove(K(pk))
@@ -577,7 +604,8 @@ def run_history(fam, kind, rng, rec, h):
                     present.clear()
         except CmpBoom:
             outcome = 'CmpBoom'
-        except (KeyError, TypeError, ValueError, IndexError) as e:
+        except (KeyError, TypeError, ValueError, IndexError,
+                gen.OperandBoom) as e:
             outcome = type(e).__name__
             del e
         finally:
